@@ -105,8 +105,8 @@ pub fn install(progress_path: &str) {
     let f = std::fs::File::create(progress_path).unwrap();
     PROGRESS_FD.store(f.into_raw_fd(), Ordering::Relaxed);
     unsafe {
-        signal(11, on_fault as usize);
-        signal(7, on_fault as usize);
+        signal(11, on_fault as *const () as usize);
+        signal(7, on_fault as *const () as usize);
     }
 }
 
